@@ -276,3 +276,73 @@ class JsonGetState(_JGS):
             ("object:only-the-cached-schema-may-change", z3.ForAll([k], z3.Implies(k != lit(A_SCHEMA), z3.And(d1.has(k) == d0.has(k), d1.get(k) == d0.get(k))))),
             ("object:defaults-unchanged", defaults_heap(c, new=True) == defaults_heap(c)),
         ]
+
+
+CLEAR_KEYS = ("to_namespaced", "from_namespaced", A_DEFAULTS, "_required_names", A_BUILDER, A_VALIDATOR, A_SCHEMA)
+
+
+def builder_heap(c, new=False):
+    return (c.new_ghost if new else c.old_ghost)("json_bprops", J.BuilderHeap)
+
+
+def _cleared(k):
+    return z3.Or(*[k == lit(x) for x in CLEAR_KEYS])
+
+
+@register
+class ClearForState(_JGS):
+    targets = ("gemseo.core.grammars.base_grammar.BaseGrammar.clear",)
+    modifies = ("self", "ghost:json_defaults", "ghost:json_bprops")
+    trusted = True
+    description = ("assumed here, verified under C15 (BGClear for the template, c15_json_grammar.Clear for JSONGrammar._clear): clear() (re)creates the namespace maps, an "
+                   "EMPTY Defaults bound to this grammar, empty required names, a new EMPTY schema builder and the two empty caches; other attributes are kept")
+
+    def ensures(self, c):
+        d0, d1 = idict(c.old.self), idict(c.new.self)
+        k = z3.Const("k!cfs", TStr.sort())
+        empty_defaults = J.DATA_T.acc(0)(defaults_heap(c, new=True)[d1.get(lit(A_DEFAULTS))])
+        return [("attributes", z3.ForAll([k], d1.has(k) == z3.Or(d0.has(k), _cleared(k)))),
+                ("others-kept", z3.ForAll([k], z3.Implies(z3.And(d0.has(k), z3.Not(_cleared(k))), d1.get(k) == d0.get(k)))),
+                ("empty-defaults", z3.And(z3.ForAll([k], z3.Not(empty_defaults[k])), J.DATA_T.acc(2)(defaults_heap(c, new=True)[d1.get(lit(A_DEFAULTS))]) == 0)),
+                ("empty-builder", z3.ForAll([k], z3.Not(builder_heap(c, new=True)[d1.get(lit(A_BUILDER))][k])))]
+
+
+def _state_from_getstate(s):
+    """Shape of a state produced by __getstate__ (JsonGetState: keys): it carries the schema and the defaults and none of the three dropped attributes."""
+    return [("state:has-the-schema", s.has(lit(A_SCHEMA))), ("state:has-the-defaults", s.has(lit(S_DEFAULTS))),
+            ("state:without-validator-builder-defaults-object", z3.And(z3.Not(s.has(lit(A_VALIDATOR))), z3.Not(s.has(lit(A_BUILDER))), z3.Not(s.has(lit(A_DEFAULTS)))))]
+
+
+def _defaults_are_elements(c):
+    s = c.old.state
+    k = z3.Const("k!dae", TStr.sort())
+    src = J.pv_data(s.get(lit(S_DEFAULTS)))
+    return z3.ForAll([k], z3.Implies(J.DATA_T.acc(0)(src)[k], J.pv_schema_props(s.get(lit(A_SCHEMA)))[k]))
+
+
+@register
+class JsonSetState(_JGS):
+    """Every entry of the state becomes an attribute, the builder is refilled from the pickled schema and the defaults of the restored grammar are exactly
+    those of the state (KeyError exactly when a default is bound to a name the pickled schema does not list)."""
+
+    targets = (JGQ + ".__setstate__",)
+    params = {"state": IDICT}
+    modifies = ("self", "state", "ghost:json_defaults", "ghost:json_bprops")
+    raises = {"KeyError": lambda c: z3.Not(_defaults_are_elements(c))}
+
+    def requires(self, c):
+        return _state_from_getstate(c.old.state)
+
+    def ensures(self, c):
+        d0, d1, s0 = idict(c.old.self), idict(c.new.self), c.old.state
+        k = z3.Const("k!jss", TStr.sort())
+        restored = defaults_heap(c, new=True)[d1.get(lit(A_DEFAULTS))]
+        src = J.pv_data(s0.get(lit(S_DEFAULTS)))
+        D = J.DATA_T
+        return [
+            ("attributes", z3.ForAll([k], d1.has(k) == z3.Or(d0.has(k), _cleared(k), s0.has(k)))),
+            ("attributes:from-the-state", z3.ForAll([k], z3.Implies(s0.has(k), d1.get(k) == s0.get(k)))),
+            ("defaults:exactly-those-of-the-state", z3.ForAll([k], z3.And(D.acc(0)(restored)[k] == D.acc(0)(src)[k], z3.Implies(D.acc(0)(src)[k], D.acc(1)(restored)[k] == D.acc(1)(src)[k])))),
+            ("defaults:size", D.acc(2)(restored) == D.acc(2)(src)),
+            ("elements:those-of-the-pickled-schema", z3.ForAll([k], builder_heap(c, new=True)[d1.get(lit(A_BUILDER))][k] == J.pv_schema_props(s0.get(lit(A_SCHEMA)))[k])),
+        ]
